@@ -127,3 +127,148 @@ func VerifC08Divide() {
 	vrt.Assert(got == 1, "lal: exactly one message")
 	vrt.Cover("end")
 }
+
+// ---- reference chunk ENCODER (RTMP 1.0 section 5.3.1): emits any legal chunking ----
+
+func refBasicHeader(out []byte, format uint8, csid int) []byte {
+	switch {
+	case csid <= 63:
+		return append(out, format<<6|uint8(csid))
+	case csid <= 319:
+		return append(out, format<<6, uint8(csid-64))
+	default:
+		return append(out, format<<6|1, uint8((csid-64)&0xff), uint8((csid-64)>>8))
+	}
+}
+
+// refChunk emits one chunk. tsField is the absolute timestamp (format 0) or the delta (formats 1, 2);
+// ext tells whether the chunk stream is in extended-timestamp mode (value repeated on format 3).
+func refChunk(out []byte, format uint8, csid int, tsField uint32, ext bool, extVal uint32, length uint32, typ uint8, msid uint32, payload []byte) []byte {
+	out = refBasicHeader(out, format, csid)
+	if format <= 2 {
+		f := tsField
+		if f >= 0xFFFFFF {
+			f = 0xFFFFFF
+		}
+		out = append(out, byte(f>>16), byte(f>>8), byte(f))
+	}
+	if format <= 1 {
+		out = append(out, byte(length>>16), byte(length>>8), byte(length), typ)
+	}
+	if format == 0 {
+		out = append(out, byte(msid), byte(msid>>8), byte(msid>>16), byte(msid>>24))
+	}
+	if (format <= 2 && tsField >= 0xFFFFFF) || (format == 3 && ext) {
+		v := tsField
+		if format == 3 {
+			v = extVal
+		}
+		out = append(out, byte(v>>24), byte(v>>16), byte(v>>8), byte(v))
+	}
+	return append(out, payload...)
+}
+
+type c08Got struct {
+	csid    int
+	typ     uint8
+	msid    int
+	ts      uint32
+	payload []byte
+}
+
+func c08Run(stream []byte, peerChunk uint32) ([]c08Got, error) {
+	c := NewChunkComposer()
+	c.SetPeerChunkSize(peerChunk)
+	var got []c08Got
+	rd := &sliceReader{b: stream}
+	err := c.RunLoop(rd, func(s *Stream) error {
+		got = append(got, c08Got{csid: s.header.Csid, typ: s.header.MsgTypeId, msid: s.header.MsgStreamId, ts: s.header.TimestampAbs, payload: append([]byte{}, s.msg.buff.Bytes()...)})
+		return nil
+	})
+	return got, err
+}
+
+func c08Same(a, b []byte) bool {
+	if len(a) != len(b) {
+		return false
+	}
+	same := true
+	for i := range a {
+		same = vrt.And(same, a[i] == b[i])
+	}
+	return same
+}
+
+// VerifC08Compose: lal's reader on specification-conforming chunkings produced by the reference encoder.
+// scen 0: Set Chunk Size between the chunks of a partially received message (interleaved control stream)
+// scen 1: two messages interleaved chunk by chunk on two chunk streams, absolute timestamps (one extended)
+// scen 2: three messages on one chunk stream using formats 0, 1, 2 and 3 with deltas
+func VerifC08Compose() {
+	var w []byte
+	switch vrt.Param("scen") {
+	case 0:
+		la := vrt.Param("la")
+		ns := vrt.Param("ns")
+		a := vrt.Bytes("a", la)
+		ts := vrt.U32("ts")
+		vrt.Assume(ts < 0xFFFFFF)
+		w = refChunk(w, 0, 3, ts, false, 0, uint32(la), 9, 1, a[:2])
+		// Set Chunk Size (type 1) on chunk stream 2, itself chunked at the current size 2
+		scs := []byte{byte(ns >> 24), byte(ns >> 16), byte(ns >> 8), byte(ns)}
+		w = refChunk(w, 0, 2, 0, false, 0, 4, 1, 0, scs[:2])
+		w = refChunk(w, 3, 2, 0, false, 0, 0, 0, 0, scs[2:])
+		// rest of A at the new chunk size
+		rest := a[2:]
+		for len(rest) > 0 {
+			k := len(rest)
+			if k > ns {
+				k = ns
+			}
+			w = refChunk(w, 3, 3, 0, false, 0, 0, 0, 0, rest[:k])
+			rest = rest[k:]
+		}
+		got, err := c08Run(w, 2)
+		vrt.Assert(err == errEOFVerif, "reader consumes the stream to its end")
+		vrt.Assert(len(got) == 2, "two messages: Set Chunk Size, then the interrupted message")
+		if len(got) == 2 {
+			vrt.Assert(got[0].typ == 1 && got[0].csid == 2, "control message first")
+			vrt.Assert(got[1].typ == 9 && got[1].csid == 3 && got[1].ts == ts && got[1].msid == 1 && c08Same(got[1].payload, a), "interrupted message reassembled identically")
+		}
+	case 1:
+		cs := 3
+		a, b := vrt.Bytes("a", 5), vrt.Bytes("b", 4)
+		tsa, tsb := vrt.U32("tsa"), vrt.U32("tsb")
+		vrt.Assume(tsa >= 0xFFFFFF) // extended
+		vrt.Assume(tsb < 0xFFFFFF)
+		csb := vrt.Range("csidb", 64, 65599)
+		w = refChunk(w, 0, 5, tsa, true, tsa, 5, 8, 1, a[:cs])
+		w = refChunk(w, 0, csb, tsb, false, 0, 4, 9, 7, b[:cs])
+		w = refChunk(w, 3, 5, 0, true, tsa, 0, 0, 0, a[cs:])
+		w = refChunk(w, 3, csb, 0, false, 0, 0, 0, 0, b[cs:])
+		got, err := c08Run(w, uint32(cs))
+		vrt.Assert(err == errEOFVerif && len(got) == 2, "two interleaved messages")
+		if len(got) == 2 {
+			vrt.Assert(got[0].csid == 5 && got[0].typ == 8 && got[0].ts == tsa && got[0].msid == 1 && c08Same(got[0].payload, a), "first stream's message")
+			vrt.Assert(got[1].csid == csb && got[1].typ == 9 && got[1].ts == tsb && got[1].msid == 7 && c08Same(got[1].payload, b), "second stream's message")
+		}
+	case 2:
+		cs := 4
+		m1, m2, m3 := vrt.Bytes("m1", 3), vrt.Bytes("m2", 6), vrt.Bytes("m3", 6)
+		t0 := vrt.U32("t0")
+		d1, d2 := vrt.U32("d1"), vrt.U32("d2")
+		vrt.Assume(t0 < 0xFFFFFF && d1 < 0xFFFFFF && d2 < 0xFFFFFF)
+		w = refChunk(w, 0, 6, t0, false, 0, 3, 9, 1, m1)
+		w = refChunk(w, 1, 6, d1, false, 0, 6, 8, 0, m2[:cs]) // new length and type, same stream id
+		w = refChunk(w, 3, 6, 0, false, 0, 0, 0, 0, m2[cs:])
+		w = refChunk(w, 2, 6, d2, false, 0, 0, 0, 0, m3[:cs]) // same length and type, new delta
+		w = refChunk(w, 3, 6, 0, false, 0, 0, 0, 0, m3[cs:])
+		got, err := c08Run(w, uint32(cs))
+		vrt.Assert(err == errEOFVerif && len(got) == 3, "three messages")
+		if len(got) == 3 {
+			vrt.Assert(got[0].ts == t0 && got[0].typ == 9 && c08Same(got[0].payload, m1), "format 0 message")
+			vrt.Assert(got[1].ts == t0+d1 && got[1].typ == 8 && got[1].msid == 1 && c08Same(got[1].payload, m2), "format 1 message: delta added, stream id kept")
+			vrt.Assert(got[2].ts == t0+d1+d2 && got[2].typ == 8 && c08Same(got[2].payload, m3), "format 2 message: delta added, length and type kept")
+		}
+	}
+	vrt.Cover("end")
+}
